@@ -2,6 +2,7 @@
 profile and bisection).  Tie: regeneration + translator validation; correspondence of model/Charge.v in the float
 instance (10**x from a table recorded in the same run) with get_charge_profile / get_pi, bit for bit.
 Search: independent evaluation of the property on synthetic group vectors and on the written .pka text."""
+import itertools
 import math
 import re
 
@@ -46,7 +47,7 @@ def gen_case(rng):
     hi = lo + rng.choice([14.0, 8.0, 3.0, 0.5] if lo > -50.0 else [100.0, 450.0])
     # precisions down to 1e-12: still above the spacing of binary64 numbers in these windows (2.8e-14 at 250), so that the stated
     # precision can be met at all; below the spacing no binary64 answer can satisfy the property (see DESIGN A.9)
-    prec = rng.choice([1e-4, 1e-4, 1e-2, 1e-6, 0.5, 1e-8, 1e-10, 1e-12])
+    prec = rng.choice([1e-4, 1e-4, 1e-2, 1e-6, 0.5, 1e-8, 1e-10, 1e-12, 2e-4, 0.003, 0.05, 0.3])
     return gs, grid, (lo, hi), prec
 
 
@@ -102,11 +103,18 @@ def run(chk: common.Check):
     cases[k] = (amph, (0.0, 14.0, 2.0), (0.0, 14.0), 1e-8)
     cases[k + 1] = (amph, (0.0, 14.0, 2.0), (-200.0, 250.0), 1e-5)
     cases[k + 2] = (amph, (0.0, 14.0, 2.0), (2.0, 12.0), 1e-10)
+    # precisions that are not powers of ten
+    for j, pr in enumerate((0.002, 0.0005, 0.03, 0.3)):
+        cases[k + 3 + j] = (amph if j % 2 == 0 else [(-1, 5.0, 3.8, True), (1, 9.0, 10.5, True), (1, 6.0, 6.5, True)], (0.0, 14.0, 2.0), (0.0, 14.0), pr)
     exprs, meta = [], []
     found = []
     orig = propka.group.Group.calculate_charge
     for gs, grid, win, prec in cases:
         groups = [CE.fake_group(float(q), pk, mp, t) for q, pk, mp, t in gs]
+        # the group's OWN model pKa counts (custom model pKa values differ from the table entry of the residue type): give the groups residue types
+        # whose tabulated model pKa is something else
+        for g, rt in zip(groups, itertools.cycle(["ASP", "OP", "", "LYS", "NAR", "TYR"])):
+            g.residue_type = rt
         conf.groups = groups
         rec = CE.Recorder()
 
